@@ -405,6 +405,8 @@ impl World {
                 (false, _) => { let (v, st) = sub.into_values_and_stream(); if !snap_ok(v, &s.replica) { return Polled::Panic; } St::Plain(Box::pin(st)) }
             };
         }
+        // a parked subscriber polled again is polled with a NEW waker: the most recent one is the one that has to be woken (C14)
+        if s.parked && !s.flag.0.load(Ordering::SeqCst) { let (f, w) = flag_waker(); s.flag = f; s.waker = w; }
         let mut cx = Context::from_waker(&s.waker);
         let r = catch(|| match &mut s.st {
             St::Plain(p) => match p.as_mut().poll_next(&mut cx) {
